@@ -3,15 +3,32 @@
 // the same canonical lines as lean/Driver/Half.lean.
 //
 //   class_all                 65,536 lines: classification bits + bits of -h
+//   classf_all                65,536 lines: classification bits, bits of -h, std::fpclassify (float (h)) as
+//                             0 zero / 1 normal / 2 subnormal / 3 infinite / 4 nan, std::signbit (float (h))
 //   round_all <n>             65,536 lines: h.round(n).bits()
 //   lut <f> <dmin> <dmax>     65,536 lines: halfFunction<unsigned> table read through operator()
+//   lutv <T> <f> <dmin> <dmax> <dflt> <pinf> <ninf> <nan>   the same for T = u(nsigned) | f(loat) | h(alf), all
+//                             seven constructor arguments explicit (hex); table entries printed as integers
+//                             (T = float stores float (bits), T = half stores the half with those bits)
+//   lutd <T> <f>              ONE-argument constructor halfFunction<T> hf (f): the header's default arguments
+//   lutd2 <T> <f> <dmin>      two-argument constructor (domainMax and the four values defaulted)
+//                             (with -DIMATH_HAVE_LARGE_STACK the object holds the 65,536-entry array itself and is
+//                             copyable: the table is then read through a COPY of the constructed object)
 //   arith_eval                stdin "h <a> <b>" | "f <a> <floatbits>" -> results of += -= *= /=
 //   arith_list                stdin line 1 half patterns, line 2 float patterns -> per a two row hashes
 //   arith_blocks <lo> <hi>    per a: hash over all 65,536 half right-hand sides x 4 operators
-//   textio                    every finite half through operator<< then operator>>; mismatches + summary
+//   arith_self_list           stdin as arith_list; NO model: x op= y against half (float (x) op float (y)) written
+//                             out here, BIT-EXACTLY (NaN sign and payload included), half and float rhs; also
+//                             half::operator= (float) against half (f)
+//   arith_self_blocks <lo> <hi>   the same for every a in [lo,hi) x all 65,536 half rhs x 4 operators
+//   textio [precision]        every finite half through operator<< then operator>>; mismatches + summary
+//                             (precision: std::setprecision on the stream; default = the stream's default 6)
+//   textio_dec <digits>       every decimal d.dd..e+-k with <digits> significant digits whose value is a
+//                             normalized half magnitude: text -> operator>> -> operator<< (scientific,
+//                             digits-1 decimals) must reproduce the text
 //
-// NaN results of arithmetic are printed as 0x7e00 (the model's Float32 has a
-// single canonical NaN), everything else bit-exactly.
+// NaN results of arithmetic are printed as 0x7e00 in the arith_eval/list/blocks
+// modes (the model's Float32 has a single canonical NaN), everything else bit-exactly.
 #include <half.h>
 #include <halfFunction.h>
 #include <cstdio>
@@ -23,6 +40,11 @@
 #include <iostream>
 #include <thread>
 #include <vector>
+#include <cmath>
+#include <iomanip>
+#include <memory>
+#include <mutex>
+#include <limits>
 using namespace IMATH_NAMESPACE;
 
 static float u2f (uint32_t u) { float f; memcpy (&f, &u, 4); return f; }
@@ -76,6 +98,115 @@ template <class F> static void dump_lut (F f, half dmin, half dmax)
     for (uint32_t b = 0; b < 65536; ++b) printf ("%x\n", hf (mk (b)));
 }
 
+// ---- halfFunction<T> for T = unsigned, float, half -------------------------------------------------
+template <class T> struct Conv;
+template <> struct Conv<unsigned> { static unsigned from (unsigned v) { return v; } static unsigned out (unsigned t) { return t; } };
+template <> struct Conv<float> { static float from (unsigned v) { return (float) v; } static unsigned out (float t) { return (unsigned) t; } };
+template <> struct Conv<half> { static half from (unsigned v) { return mk (v & 0xffff); } static unsigned out (half t) { return t.bits (); } };
+
+template <class T> struct Fn
+{
+    int which;
+    T operator() (half x) const
+    {
+        unsigned r = which == 1 ? (-x).bits () : which == 2 ? x.round (3).bits () : x.bits ();
+        return Conv<T>::from (r);
+    }
+};
+static int which_f (const std::string& f) { return f == "neg" ? 1 : f == "round3" ? 2 : 0; }
+
+template <class T> static void print_table (const halfFunction<T>& hf)
+{
+#ifdef IMATH_HAVE_LARGE_STACK
+    // the large-stack flavour is an ordinary copyable aggregate: read through a copy
+    std::unique_ptr<halfFunction<T>> cp (new halfFunction<T> (hf));
+    for (uint32_t b = 0; b < 65536; ++b) printf ("%x\n", Conv<T>::out ((*cp) (mk (b))));
+#else
+    for (uint32_t b = 0; b < 65536; ++b) printf ("%x\n", Conv<T>::out (hf (mk (b))));
+#endif
+}
+
+template <class T> static int lut_cmd (const std::string& cmd, int argc, char** argv)
+{
+    Fn<T> f { which_f (argv[3]) };
+    auto H = [&] (int i) { return (uint32_t) strtoul (argv[i], 0, 16); };
+    std::unique_ptr<halfFunction<T>> hf;       // heap: 65,536 x T may be an array member (IMATH_HAVE_LARGE_STACK)
+    if (cmd == "lutd" && argc == 4) hf.reset (new halfFunction<T> (f));
+    else if (cmd == "lutd2" && argc == 5) hf.reset (new halfFunction<T> (f, mk (H (4))));
+    else if (cmd == "lutv" && argc == 10)
+        hf.reset (new halfFunction<T> (f, mk (H (4)), mk (H (5)), Conv<T>::from (H (6)), Conv<T>::from (H (7)),
+                                       Conv<T>::from (H (8)), Conv<T>::from (H (9))));
+    else return 2;
+    print_table (*hf);
+    return 0;
+}
+
+// ---- arithmetic self-check: the property's right-hand side written out, bit-exact -------------------
+// half (float (x) op float (y)); volatile temporaries so that the compiler cannot merge this
+// computation with the one inside the half operator under test.
+static uint16_t ref_op (int op, float fx, float fy)
+{
+    volatile float a = fx, b = fy;
+    volatile float r;
+    switch (op) { case 0: r = a + b; break; case 1: r = a - b; break; case 2: r = a * b; break; default: r = a / b; }
+    return half ((float) r).bits ();
+}
+static uint16_t raw_h (int op, uint16_t a, uint16_t b)
+{
+    half x = mk (a), y = mk (b);
+    switch (op) { case 0: x += y; break; case 1: x -= y; break; case 2: x *= y; break; default: x /= y; }
+    return x.bits ();
+}
+static uint16_t raw_f (int op, uint16_t a, uint32_t fb)
+{
+    half x = mk (a); float y = u2f (fb);
+    switch (op) { case 0: x += y; break; case 1: x -= y; break; case 2: x *= y; break; default: x /= y; }
+    return x.bits ();
+}
+struct SelfStat
+{
+    std::mutex m;
+    unsigned long long evals = 0, bad = 0, nan_results = 0, nan_neg = 0, nan_payload = 0, commuted = 0;
+    std::vector<std::string> first;
+};
+// One comparison.  For + and * with BOTH operands NaN the C++ expression `p + q` does not determine
+// which operand's payload the hardware instruction propagates (the compiler may emit either operand
+// order), so the commuted reference is accepted there too and counted.
+static inline void self_one (SelfStat& loc, char kind, int op, uint16_t a, uint32_t b, uint16_t got, float fx, float fy)
+{
+    uint16_t e = ref_op (op, fx, fy);
+    ++loc.evals;
+    if ((e & 0x7c00) == 0x7c00 && (e & 0x3ff))
+    {
+        ++loc.nan_results;
+        if (e & 0x8000) ++loc.nan_neg;
+        if ((e & 0x7fff) != 0x7e00) ++loc.nan_payload;
+    }
+    if (got == e) return;
+    if (op == 0 || op == 2)
+        if (fx != fx && fy != fy && got == ref_op (op, fy, fx)) { ++loc.commuted; return; }
+    ++loc.bad;
+    if (loc.first.size () < 4)
+    {
+        char buf[160];
+        snprintf (buf, sizeof buf, "mismatch %c %x %d %x got=%x expected=%x", kind, a, op, b, got, e);
+        loc.first.push_back (buf);
+    }
+}
+static void self_merge (SelfStat& g, SelfStat& loc)
+{
+    std::lock_guard<std::mutex> lk (g.m);
+    g.evals += loc.evals; g.bad += loc.bad; g.nan_results += loc.nan_results; g.nan_neg += loc.nan_neg;
+    g.nan_payload += loc.nan_payload; g.commuted += loc.commuted;
+    for (auto& s : loc.first) if (g.first.size () < 20) g.first.push_back (s);
+}
+static void self_report (SelfStat& g, const char* tag)
+{
+    for (auto& s : g.first) printf ("%s\n", s.c_str ());
+    printf ("%s evals=%llu mismatches=%llu nan_results=%llu negative_nan=%llu noncanonical_payload=%llu commuted_accepted=%llu\n",
+            tag, g.evals, g.bad, g.nan_results, g.nan_neg, g.nan_payload, g.commuted);
+}
+
 static std::vector<std::string> words (const std::string& l)
 {
     std::vector<std::string> w; std::istringstream is (l); std::string s;
@@ -98,6 +229,20 @@ int main (int argc, char** argv)
         }
         return 0;
     }
+    if (cmd == "classf_all")
+    {
+        for (uint32_t b = 0; b < 65536; ++b)
+        {
+            half h = mk (b);
+            int c = (h.isFinite () ? 1 : 0) + (h.isNormalized () ? 2 : 0) + (h.isDenormalized () ? 4 : 0) +
+                    (h.isZero () ? 8 : 0) + (h.isNan () ? 16 : 0) + (h.isInfinity () ? 32 : 0) + (h.isNegative () ? 64 : 0);
+            volatile float f = float (h);          // the platform's classification of the converted value
+            int k = std::fpclassify ((float) f);
+            int fc = k == FP_ZERO ? 0 : k == FP_NORMAL ? 1 : k == FP_SUBNORMAL ? 2 : k == FP_INFINITE ? 3 : k == FP_NAN ? 4 : 9;
+            printf ("%d %x %d %d\n", c, (-h).bits (), fc, std::signbit ((float) f) ? 1 : 0);
+        }
+        return 0;
+    }
     if (cmd == "round_all" && argc > 2)
     {
         unsigned n = (unsigned) atoi (argv[2]);
@@ -111,6 +256,61 @@ int main (int argc, char** argv)
         if (f == "neg") dump_lut (FNeg (), dmin, dmax);
         else if (f == "round3") dump_lut (FRound3 (), dmin, dmax);
         else dump_lut (FId (), dmin, dmax);
+        return 0;
+    }
+    if ((cmd == "lutv" || cmd == "lutd" || cmd == "lutd2") && argc > 3)
+    {
+        std::string t = argv[2];
+        if (t == "u") return lut_cmd<unsigned> (cmd, argc, argv);
+        if (t == "f") return lut_cmd<float> (cmd, argc, argv);
+        if (t == "h") return lut_cmd<half> (cmd, argc, argv);
+        return 2;
+    }
+    if (cmd == "arith_self_list")
+    {
+        std::string l1, l2;
+        std::getline (std::cin, l1); std::getline (std::cin, l2);
+        std::vector<uint16_t> hs; std::vector<uint32_t> fs;
+        for (auto& s : words (l1)) hs.push_back ((uint16_t) strtoul (s.c_str (), 0, 16));
+        for (auto& s : words (l2)) fs.push_back ((uint32_t) strtoul (s.c_str (), 0, 16));
+        SelfStat g, ga; SelfStat* pg = &g;
+        const std::vector<uint16_t>* ph = &hs; const std::vector<uint32_t>* pf = &fs;
+        parallel (hs.size (), [=] (size_t i) {
+            SelfStat loc; uint16_t a = (*ph)[i]; float fx = float (mk (a));
+            for (uint16_t b : *ph) for (int op = 0; op < 4; ++op) self_one (loc, 'h', op, a, b, raw_h (op, a, b), fx, float (mk (b)));
+            for (uint32_t f : *pf) for (int op = 0; op < 4; ++op) self_one (loc, 'f', op, a, f, raw_f (op, a, f), fx, u2f (f));
+            self_merge (*pg, loc);
+        });
+        self_report (g, "arith_self");
+        // half::operator= (float) (no caller elsewhere in the library): against the constructor
+        for (uint32_t f : fs)
+        {
+            half h = mk (0x1234); h = u2f (f);
+            half k (u2f (f));
+            ++ga.evals;
+            if (h.bits () != k.bits ())
+            {
+                ++ga.bad;
+                if (ga.first.size () < 4) { char buf[96]; snprintf (buf, sizeof buf, "mismatch = %x got=%x expected=%x", f, h.bits (), k.bits ()); ga.first.push_back (buf); }
+            }
+        }
+        self_report (ga, "assign_float");
+        return 0;
+    }
+    if (cmd == "arith_self_blocks" && argc > 3)
+    {
+        uint32_t lo = (uint32_t) atol (argv[2]), hi = (uint32_t) atol (argv[3]);
+        SelfStat g; SelfStat* pg = &g;
+        parallel (hi - lo, [=] (size_t i) {
+            SelfStat loc; uint16_t a = (uint16_t) (lo + i); float fx = float (mk (a));
+            for (uint32_t b = 0; b < 65536; ++b)
+            {
+                float fy = float (mk (b));
+                for (int op = 0; op < 4; ++op) self_one (loc, 'h', op, a, b, raw_h (op, a, (uint16_t) b), fx, fy);
+            }
+            self_merge (*pg, loc);
+        });
+        self_report (g, "arith_self");
         return 0;
     }
     if (cmd == "arith_eval")
@@ -155,12 +355,14 @@ int main (int argc, char** argv)
     if (cmd == "textio")
     {
         unsigned n = 0, bad = 0;
+        int prec = argc > 2 ? atoi (argv[2]) : -1;
         for (uint32_t b = 0; b < 65536; ++b)
         {
             half h = mk (b);
             if (!h.isFinite ()) continue;
             ++n;
             std::stringstream ss;
+            if (prec >= 0) ss << std::setprecision (prec);
             ss << h;                      // real operator<< (half.cpp)
             std::string text = ss.str ();
             half g = mk (0x7fff);
@@ -171,6 +373,40 @@ int main (int argc, char** argv)
                 printf ("sample %x %s %x\n", b, text.c_str (), g.bits ());
         }
         printf ("textio finite=%u mismatches=%u\n", n, bad);
+        return 0;
+    }
+    if (cmd == "textio_dec" && argc > 2)
+    {
+        // decimal -> half -> decimal with `digits` significant digits (numeric_limits<half>::digits10 is the
+        // largest count for which this is the identity on the normalized range)
+        int digits = atoi (argv[2]);
+        if (digits < 1 || digits > 6) return 2;
+        long lo = 1, n = 0, bad = 0;
+        for (int i = 1; i < digits; ++i) lo *= 10;
+        const double hmin = std::ldexp (1.0, -14), hmax = 65504.0;
+        for (int k = -6; k <= 5; ++k)
+            for (long d = lo; d < lo * 10; ++d)
+                for (int sg = 0; sg < 2; ++sg)
+                {
+                    char text[64];
+                    // d.dd..e+-kk written from the integer digits: no floating-point formatting on the way in
+                    std::string ds = std::to_string (d);
+                    snprintf (text, sizeof text, "%s%c%s%se%c%02d", sg ? "-" : "", ds[0], digits > 1 ? "." : "", ds.c_str () + 1,
+                              k < 0 ? '-' : '+', k < 0 ? -k : k);
+                    double v = strtod (text, 0);
+                    if (std::fabs (v) < hmin || std::fabs (v) > hmax) continue;
+                    ++n;
+                    std::stringstream in (text);
+                    half h = mk (0x7fff);
+                    in >> h;                                   // real operator>>
+                    std::stringstream os;
+                    os << std::scientific << std::setprecision (digits - 1) << h;   // real operator<<
+                    bool ok = !in.fail () && os.str () == text;
+                    if (!ok) { ++bad; if (bad <= 20) printf ("mismatch %s %x %s\n", text, h.bits (), os.str ().c_str ()); }
+                    if (n == 1 || (d == 655 && k == 4 && !sg) || (d == 101 && k == 0 && sg))
+                        printf ("sample %s %x %s\n", text, h.bits (), os.str ().c_str ());
+                }
+        printf ("textio_dec digits=%d decimals=%ld mismatches=%ld\n", digits, n, bad);
         return 0;
     }
     return 2;
